@@ -585,11 +585,12 @@ Section WithLibm.
   Variable lm : Libm.
   Variable fuel : positive.
 
-  (* calculate_path: note the early return on empty points BEFORE path.clear() *)
+  (* calculate_path: path.clear(); *optimized_len = 0.0; then the early return on
+     empty points (the vertices buffer is left as it was) *)
   Definition calculate_path_L0 (mode : Z) (pts : list PathControlPoint) (bufs : CurveBuffers)
       (opt : F64) : outcome (CurveBuffers * F64) :=
     match pts with
-    | [] => Done (bufs, opt)
+    | [] => Done (mkCB [] (cb_lengths bufs) (cb_vertices bufs) (cb_bezier bufs), D.zero)
     | _ =>
         let verts := map pc_pos pts in
         obind (cpath_loop (approximate_bezier_L0 fuel) lm (length pts) 0 0 (length pts)
